@@ -7,17 +7,22 @@
   `g.first / g.next / g.iter / g.size / g.validate / g.bind / g.random` are the implementation
   model (PgModel/Geno/Enum.lean). `succIn l d` is the element following `d` in `l`.
 
-  Staging (DESIGN §6 C11): each clause is stated in full as `def …_Full : Prop`; what is proved is
-  the `…_partial` theorem with the explicit decidable exclusion `g.noMulti` (no `num_choices > 1`
-  anywhere). For multi-choices the same equalities (`g.iter = g.all`, `g.size = |g.all|`) are
-  checked by the driver on every enumerated spec of the correspondence run, including the
-  exhaustive small-scope family — labelled as such in the evidence, not claimed as theorems.
+  Staging (DESIGN §6 C11): each clause is stated in full as `def …_Full : Prop`. Proved in full
+  (every finite well-formed spec: spaces, single and multi choices in all four distinct × sorted
+  modes, conditional sub-spaces of any depth): first / next / iteration / no repetition / the
+  iterated set is the valid set; `validate`, binding (outside F20c) and `random_dna` for every
+  spec. Still staged: the counting recurrences for multi-choices (`C11_size_Full`: proved as
+  `C11_size_partial` for specs without `num_choices > 1`) and strict monotonicity w.r.t. `DNA.__cmp__`
+  (`C11_increasing_Full`); both equalities are evaluated by the driver / the oracle on every
+  enumerated spec of the correspondence run, including the exhaustive small-scope family —
+  labelled as such in the evidence, not claimed as theorems.
 -/
 import PgProofs.GenoIter
 import PgProofs.GenoValid
 import PgProofs.GenoValidate
 import PgProofs.GenoBind
 import PgProofs.GenoRandom
+import PgProofs.GenoOdo3
 namespace Pg.Geno
 
 /-! ### Full statements -/
@@ -39,6 +44,11 @@ def C11_iter_Full : Prop :=
 /-- `space_size` is the number of members. -/
 def C11_size_Full : Prop :=
   ∀ g : Spec, g.finite = true → g.wf = true → g.size = some g.all.length
+
+/-- The enumeration is strictly increasing w.r.t. `DNA.__lt__` (staged; checked on the code by
+the oracle and on sampled pairs by the correspondence of `__cmp__`). -/
+def C11_increasing_Full : Prop :=
+  ∀ g : Spec, g.finite = true → g.wf = true → g.all.Pairwise (fun a b => DNA.lt a b = true)
 
 /-- Binding accepts exactly the members. -/
 def C11_bind_Full : Prop :=
@@ -77,29 +87,37 @@ theorem C11_random (g : Spec) (o : List Draw) (d : DNA) (rest : List Draw)
     (h : g.random o = some (d, rest)) : Valid g d :=
   random_valid g o d rest h
 
+/-! ### Proved in full: the odometer theorem for every finite well-formed spec -/
+
+/-- `first_dna()` is the first member. -/
+theorem C11_first : C11_first_Full :=
+  fun g hf hw => (specOk_all g hf hw).head
+
+/-- THE ODOMETER THEOREM: `next_dna(d)` is the successor of `d` in the lexicographic enumeration of
+all members (`None` after the last one) — right-to-left search for the right-most advanceable
+position, `next_value_for_choice` and `min_remaining_choices` (with the monotone-feasibility
+lemma) included, in every distinct × sorted mode and under any nesting of conditional spaces. -/
+theorem C11_next : C11_next_Full :=
+  fun g hf hw => (specOk_all g hf hw).next
+
+/-- The enumeration has no repetition. -/
+theorem C11_all_nodup (g : Spec) (hf : g.finite = true) (hw : g.wf = true) : g.all.Nodup :=
+  (specOk_all g hf hw).nodup
+
+/-- Iteration yields exactly the members, each once, in the order of the specification, and then
+stops (`next_dna` of the last one is `None`). -/
+theorem C11_iter : C11_iter_Full :=
+  fun g hf hw fuel h => iter_eq_all (specOk_all g hf hw) fuel h
+
+/-- … hence the iterated DNAs are pairwise different and form precisely the set of DNAs that
+satisfy the constraints. -/
+theorem C11_iter_exact (g : Spec) (hf : g.finite = true) (hw : g.wf = true)
+    (fuel : Nat) (hfuel : g.all.length < fuel) :
+    ∃ l, g.iter fuel = some (l, true) ∧ l.Nodup ∧ ∀ d, d ∈ l ↔ Valid g d :=
+  ⟨g.all, C11_iter g hf hw fuel hfuel, C11_all_nodup g hf hw, fun d => C11_spec_sound_complete g hf d⟩
+
 /-! ### Proved: specs without multi-choices (spaces, single choices, conditional sub-spaces of any
 depth and width) -/
-
-theorem C11_first_partial (g : Spec) (hf : g.finite = true) (hw : g.wf = true) (hm : g.noMulti = true) :
-    g.all.head? = some g.first :=
-  (specOk g hf hw hm).head
-
-/-- The odometer lemma: right-to-left search for the right-most advanceable position equals the
-recursive successor. -/
-theorem C11_next_partial (g : Spec) (hf : g.finite = true) (hw : g.wf = true) (hm : g.noMulti = true) :
-    ∀ d ∈ g.all, g.next d = some (succIn g.all d) :=
-  (specOk g hf hw hm).next
-
-/-- The enumeration of all members has no duplicates. -/
-theorem C11_all_nodup_partial (g : Spec) (hf : g.finite = true) (hw : g.wf = true) (hm : g.noMulti = true) :
-    g.all.Nodup :=
-  (specOk g hf hw hm).nodup
-
-/-- Iteration yields exactly the members, each once, in the order of the specification, and
-then stops: with any fuel above the number of members the result is `(g.all, ended = true)`. -/
-theorem C11_iter_partial (g : Spec) (hf : g.finite = true) (hw : g.wf = true) (hm : g.noMulti = true)
-    (fuel : Nat) (hfuel : g.all.length < fuel) : g.iter fuel = some (g.all, true) :=
-  iter_eq_all (specOk g hf hw hm) fuel hfuel
 
 /-- The counting recurrences (sum over candidates, product over elements) are correct. -/
 theorem C11_size_partial (g : Spec) (hf : g.finite = true) (hw : g.wf = true) (hm : g.noMulti = true) :
@@ -111,14 +129,7 @@ successor. -/
 theorem C11_iter_count_partial (g : Spec) (hf : g.finite = true) (hw : g.wf = true) (hm : g.noMulti = true) :
     ∃ n l, g.size = some n ∧ g.iter (n + 1) = some (l, true) ∧ l.length = n ∧ l.Nodup ∧ l = g.all :=
   ⟨g.all.length, g.all, C11_size_partial g hf hw hm,
-   C11_iter_partial g hf hw hm _ (Nat.lt_succ_self _), rfl, C11_all_nodup_partial g hf hw hm, rfl⟩
-
-/-- … and the iterated set is precisely the set of DNAs that satisfy the constraints. -/
-theorem C11_iter_exact_partial (g : Spec) (hf : g.finite = true) (hw : g.wf = true) (hm : g.noMulti = true)
-    (fuel : Nat) (hfuel : g.all.length < fuel) :
-    ∃ l, g.iter fuel = some (l, true) ∧ l.Nodup ∧ ∀ d, d ∈ l ↔ Valid g d :=
-  ⟨g.all, C11_iter_partial g hf hw hm fuel hfuel, C11_all_nodup_partial g hf hw hm,
-   fun d => C11_spec_sound_complete g hf d⟩
+   C11_iter g hf hw _ (Nat.lt_succ_self _), rfl, C11_all_nodup g hf hw, rfl⟩
 
 /-- The Sweeping generator proposes the same sequence as `iter_dna` (for every spec: it is the
 same loop over `next_dna`). -/
